@@ -37,9 +37,27 @@ func like(left, right string) (string, error) {
 		return fmt.Sprintf("%s ~ %s", left, right), nil
 	}
 
-	right = strings.ReplaceAll(right, "*", "%")
-	right = strings.ReplaceAll(right, "?", "_")
-	return fmt.Sprintf("%s SIMILAR TO %s", left, right), nil
+	return fmt.Sprintf("%s SIMILAR TO %s", left, likePattern(right)), nil
+}
+
+// likePattern translates the lucene wildcards * and ? to the SQL ones. A wildcard character that
+// is escaped with a backslash stays the literal character it is.
+func likePattern(in string) string {
+	out := make([]byte, 0, len(in))
+	for i := 0; i < len(in); i++ {
+		switch c := in[i]; {
+		case c == '\\' && i+1 < len(in):
+			out = append(out, c, in[i+1])
+			i++
+		case c == '*':
+			out = append(out, '%')
+		case c == '?':
+			out = append(out, '_')
+		default:
+			out = append(out, c)
+		}
+	}
+	return string(out)
 }
 
 func likeParam(left, right string, params []any) (string, error) {
